@@ -11,8 +11,8 @@
      5. pure traces = documented selections
      6. sorting: extract-min order = sorted arrangement (under the order laws `PosOrder`, which hold in R)
      7. the theorems per method, flags, degrees, frame, vectors *)
-From Coq Require Import ZArith Bool List Lia Arith Sorting.Sorted Sorting.Permutation.
-From VF Require Import Num Core Activation Selection.
+From Coq Require Import ZArith Bool List Lia Arith Sorting.Sorted Sorting.Permutation Reals Lra.
+From VF Require Import Num NumR Core Activation Selection.
 Import ListNotations.
 Set Implicit Arguments.
 
@@ -581,6 +581,41 @@ Section Traces.
     destruct (rs_loaded x); cbn; auto. f_equal. destruct (snd (f a i (rs_value x))); cbn; auto.
   Qed.
 
+  (* ---- order of the calls on one rule: never evaluated before it was deactivated, never triggered
+     before it was evaluated (D, E: the positions deactivated / evaluated so far) *)
+  Definition mem (i : nat) (l : list nat) : bool := existsb (Nat.eqb i) l.
+  Fixpoint ordered (D E : list nat) (evs : list event) : bool :=
+    match evs with
+    | [] => true
+    | EvDeactivate i :: evs' => ordered (i :: D) E evs'
+    | EvEval i :: evs' => mem i D && ordered D (i :: E) evs'
+    | EvTrigger i _ :: evs' => mem i E && ordered D E evs'
+    end.
+  Lemma mem_head i l : mem i (i :: l) = true.
+  Proof. unfold mem. cbn. now rewrite Nat.eqb_refl. Qed.
+  Lemma mem_in i l : In i l -> mem i l = true.
+  Proof. intros H. unfold mem. apply existsb_exists. exists i. split; auto. apply Nat.eqb_refl. Qed.
+  Lemma gtrace_ordered A (f : A -> nat -> T -> A * bool) xs : forall a D E, ordered D E (gtrace f xs a) = true.
+  Proof.
+    induction xs as [|[i x] xs IH]; intros a D E; cbn [gtrace ordered]; auto.
+    destruct (rs_loaded x); [|apply IH]. cbn [ordered]. rewrite mem_head. cbn [andb].
+    destruct (snd (f a i (rs_value x))); [|apply IH]. cbn [ordered]. rewrite mem_head. apply IH.
+  Qed.
+  Lemma ordered_then_triggers (h : nat -> T) tl (e1 : list event) : forall D E,
+    ordered D E e1 = true -> (forall j, In j tl -> In j (evals_of e1) \/ In j E) ->
+    ordered D E (e1 ++ map (fun j => EvTrigger j (h j)) tl) = true.
+  Proof.
+    induction e1 as [|e e1 IH]; intros D E O H; cbn [app].
+    - clear O. induction tl as [|j tl IHt]; cbn; auto. rewrite mem_in.
+      + apply IHt. intros k Hk. apply H. now right.
+      + destruct (H j (or_introl eq_refl)) as [[]|]; auto.
+    - destruct e; cbn [ordered evals_of] in *.
+      + apply IH; auto.
+      + apply andb_true_iff in O as (M & O). rewrite M. cbn [andb]. apply IH; auto.
+        intros j Hj. destruct (H j Hj) as [[<-|]|]; auto; right; [now left | now right].
+      + apply andb_true_iff in O as (M & O). rewrite M. cbn [andb]. apply IH; auto.
+  Qed.
+
   (* ---- General *)
   Lemma general_triggers xs : triggers_of (gtrace f_general xs tt) = select AGeneral (ld xs).
   Proof. induction xs as [|[i x] xs IH]; cbn; auto. destruct (rs_loaded x); cbn; now rewrite ?IH. Qed.
@@ -962,3 +997,518 @@ Section KeyLaws.
     - eapply perm_trans; [apply Permutation_sym; exact P1 | exact P2].
   Qed.
 End KeyLaws.
+(* ------------------------------------------------------------------------------------------ *)
+(* 7. the theorems                                                                             *)
+(* ------------------------------------------------------------------------------------------ *)
+Section Theorems.
+  Context {T : Type} {N : Num T}.
+  Notation crule := (crule T). Notation cstate := (cstate T). Notation event := (event T).
+  Notation rstatic := (rstatic T).
+  Notation entry := (nat * T)%type.
+
+  Definition init (b : list crule) : cstate := {| cs_rules := b; cs_events := [] |}.
+  Definition xs_from (k : nat) (b : list crule) : list (nat * rstatic) :=
+    combine (seq k (length b)) (map (@cr_static T) b).
+  Definition xs_of (b : list crule) : list (nat * rstatic) := xs_from 0 b.
+  (* the (position, degree) list the documented selections are read on *)
+  Definition loaded_degrees (b : list crule) : list entry :=
+    loaded_from (fun r : crule => rs_loaded (cr_static r)) (fun r : crule => rs_value (cr_static r)) 0 b.
+  Definition selection (m : activation T) (b : list crule) : list entry := select m (loaded_degrees b).
+  (* scalar mode: no loaded rule has a degree with more than one element *)
+  Definition scalar_block (b : list crule) : Prop :=
+    forall r, In r b -> rs_loaded (cr_static r) = true -> rs_size (cr_static r) <= 1.
+  Definition vector_block (b : list crule) : Prop :=
+    exists r, In r b /\ rs_loaded (cr_static r) = true /\ 1 < rs_size (cr_static r).
+  Definition value_at (b : list crule) (j : nat) : T :=
+    match nth_error b j with Some r => rs_value (cr_static r) | None => zero end.
+
+  Lemma xs_fst k b : map fst (xs_from k b) = seq k (length b).
+  Proof.
+    unfold xs_from. revert k; induction b as [|r b IH]; intros k; cbn; auto. now rewrite IH.
+  Qed.
+  Lemma xs_in k b j x : In (j, x) (xs_from k b) ->
+    k <= j /\ exists r, nth_error b (j - k) = Some r /\ cr_static r = x.
+  Proof.
+    unfold xs_from. revert k; induction b as [|r b IH]; intros k; cbn; [tauto|].
+    intros [E|H].
+    - inversion E; subst. split; [lia|]. rewrite Nat.sub_diag. cbn. eauto.
+    - destruct (IH _ H) as (LE & r' & G & X). split; [lia|]. exists r'.
+      replace (j - k) with (Datatypes.S (j - Datatypes.S k)) by lia. auto.
+  Qed.
+  Lemma in_xs k b j r : nth_error b j = Some r -> In (k + j, cr_static r) (xs_from k b).
+  Proof.
+    unfold xs_from. revert k j; induction b as [|r' b IH]; intros k [|j]; cbn; try discriminate.
+    - intros H; inversion H; subst. left. f_equal. lia.
+    - intros H. right. replace (k + Datatypes.S j) with (Datatypes.S k + j) by lia. now apply IH.
+  Qed.
+  Lemma xs_nodup b : NoDup (map fst (xs_of b)).
+  Proof. unfold xs_of. rewrite xs_fst. apply seq_NoDup. Qed.
+  Lemma xs_agrees b : agrees (init b) (xs_of b).
+  Proof.
+    intros j x H. apply xs_in in H as (_ & r & G & X). rewrite Nat.sub_0_r in G.
+    unfold stat, cget, init; cbn. rewrite G. cbn. now rewrite X.
+  Qed.
+  Lemma xs_scalar b : scalar_block b -> scalar_xs (xs_of b).
+  Proof.
+    intros SB j x H L. apply xs_in in H as (_ & r & G & X). subst x.
+    apply SB; auto. eapply nth_error_In; eauto.
+  Qed.
+  Lemma xs_vector b : vector_block b -> has_vector (xs_of b).
+  Proof.
+    intros (r & IN & L & SZ). apply In_nth_error in IN as (j & G).
+    exists j, (cr_static r). split; auto. apply (in_xs 0 _ _ G).
+  Qed.
+  Lemma xs_ld b : ld (xs_of b) = loaded_degrees b.
+  Proof. apply ld_block. Qed.
+  Lemma xs_value b j v : In (j, v) (ld (xs_of b)) ->
+    exists r, cget (init b) j = Some r /\ rs_loaded (cr_static r) = true /\ rs_value (cr_static r) = value_at b j /\ v = value_at b j.
+  Proof.
+    intros H. apply ld_in in H as (x & IN & L & V). apply xs_in in IN as (_ & r & G & X).
+    rewrite Nat.sub_0_r in G. subst x. exists r. unfold cget, init, value_at; cbn. rewrite G. auto.
+  Qed.
+
+  (* statements about a reversed iteration order *)
+  Lemma agrees_rev (s : cstate) (xs : list (nat * rstatic)) : agrees s xs -> agrees s (rev xs).
+  Proof. intros H j x IN. apply H. now apply in_rev. Qed.
+  Lemma scalar_rev (xs : list (nat * rstatic)) : scalar_xs xs -> scalar_xs (rev xs).
+  Proof. intros H j x IN L. apply (H j x); auto. now apply in_rev. Qed.
+  Lemma vector_rev (xs : list (nat * rstatic)) : has_vector xs -> has_vector (rev xs).
+  Proof. intros (j & x & IN & H). exists j, x. split; auto. now apply in_rev in IN. Qed.
+  Lemma nodup_rev (xs : list (nat * rstatic)) : NoDup (map fst xs) -> NoDup (map fst (rev xs)).
+  Proof. intros H. rewrite map_rev. apply NoDup_rev. exact H. Qed.
+  Lemma post_same_set l l' (s s' : cstate) evs :
+    (forall j, In j l <-> In j l') -> post l s s' evs -> post l' s s' evs.
+  Proof.
+    intros EQ (E & L & U & C & F). repeat split; auto.
+    - intros j NJ. apply U. now rewrite EQ.
+    - intros j r Hj. apply C. now rewrite EQ.
+    - eapply Forall_impl; [|exact F]. cbn. intros e. apply EQ.
+  Qed.
+
+  (* ---- what a successful scalar run looks like *)
+  Definition order_of {X} (m : activation T) (l : list X) : list X :=
+    match m with ALast _ _ => rev l | _ => l end.
+  Record good_run (m : activation T) (b : list crule) (s' : cstate) : Prop := {
+    gr_run : run m b = Ok s';
+    gr_post : post (seq 0 (length b)) (init b) s' (cs_events s');
+    gr_triggers : triggers_of (cs_events s') = selection m b;
+    gr_deactivations : deactivations_of (cs_events s') = order_of m (seq 0 (length b));
+    gr_evals : evals_of (cs_events s') = map fst (order_of m (loaded_degrees b));
+    gr_ordered : ordered [] [] (cs_events s') = true
+  }.
+
+  Lemma run_unfold m b : run m b = activate_on cops m (map fst (xs_of b)) (init b).
+  Proof. unfold run, activate, xs_of. now rewrite xs_fst. Qed.
+
+  (* single-loop methods *)
+  Lemma single_loop_good m b A (f : A -> nat -> T -> A * bool) (check : bool) (a : A) :
+    (forall s, activate_on cops m (map fst (xs_of b)) s =
+               rmap snd (gloop cops check f (map fst (order_of m (xs_of b))) a s)) ->
+    (forall xs, triggers_of (gtrace f (order_of m xs) a) = select m (ld xs)) ->
+    scalar_block b -> exists s', good_run m b s'.
+  Proof.
+    intros RUN TR SB.
+    assert (ORD : forall j, In j (map fst (order_of m (xs_of b))) <-> In j (seq 0 (length b))).
+    { intros j. unfold xs_of. rewrite <- (xs_fst 0 b). destruct m; cbn; try tauto.
+      rewrite map_rev. symmetry. apply in_rev. }
+    destruct (@gloop_spec T N A check f (order_of m (xs_of b)) a (init b)) as (s' & G & P).
+    - destruct m; cbn; auto using xs_nodup, nodup_rev.
+    - destruct m; cbn; auto using xs_agrees, agrees_rev.
+    - intros _. destruct m; cbn; auto using xs_scalar, scalar_rev.
+    - assert (EV : cs_events s' = gtrace f (order_of m (xs_of b)) a) by (destruct P as (E & _); exact E).
+      exists s'. split.
+      + rewrite run_unfold, RUN, G. reflexivity.
+      + rewrite EV. eapply post_same_set; [exact ORD | exact P].
+      + rewrite EV, TR. unfold selection. now rewrite xs_ld.
+      + rewrite EV, gtrace_deactivations. unfold xs_of. destruct m; cbn; rewrite ?map_rev, xs_fst; auto.
+      + rewrite EV, gtrace_evals. rewrite <- xs_ld. destruct m; cbn; auto. now rewrite ld_rev.
+      + rewrite EV. apply gtrace_ordered.
+  Qed.
+
+  Theorem General_good b : scalar_block b -> exists s', good_run AGeneral b s'.
+  Proof.
+    apply single_loop_good with (f := f_general) (check := false) (a := tt).
+    - intros s. apply general_loop_gloop.
+    - intros xs. apply general_triggers.
+  Qed.
+  Theorem First_good n t b : scalar_block b -> exists s', good_run (AFirst n t) b s'.
+  Proof.
+    apply single_loop_good with (f := f_first n t) (check := true) (a := 0%Z).
+    - intros s. apply first_loop_gloop.
+    - intros xs. apply first_selects_pure.
+  Qed.
+  Theorem Last_good n t b : scalar_block b -> exists s', good_run (ALast n t) b s'.
+  Proof.
+    apply single_loop_good with (f := f_first n t) (check := true) (a := 0%Z).
+    - intros s. cbn [activate_on order_of]. rewrite <- map_rev. apply first_loop_gloop.
+    - intros xs. apply last_selects_pure.
+  Qed.
+  Theorem Threshold_good c t b : scalar_block b -> exists s', good_run (AThreshold c t) b s'.
+  Proof.
+    apply single_loop_good with (f := f_threshold c t) (check := true) (a := tt).
+    - intros s. apply threshold_loop_gloop.
+    - intros xs. apply threshold_triggers.
+  Qed.
+
+  (* ---- two-loop methods *)
+  Lemma in_firstn {X} k (l : list X) x : In x (firstn k l) -> In x l.
+  Proof. revert k; induction l as [|y l IH]; intros [|k]; cbn; try tauto. intros [?|?]; eauto. Qed.
+  Lemma nodup_firstn {X} k (l : list X) : NoDup l -> NoDup (firstn k l).
+  Proof.
+    revert k; induction l as [|x l IH]; intros [|k] ND; cbn; try constructor.
+    - inversion ND; subst. intros H. apply in_firstn in H. contradiction.
+    - inversion ND; subst. now apply IH.
+  Qed.
+  Lemma nodup_filter_fst (p : entry -> bool) (l : list entry) : NoDup (map fst l) -> NoDup (map fst (filter p l)).
+  Proof.
+    induction l as [|x l IH]; cbn; auto. intros ND; inversion ND; subst.
+    destruct (p x); cbn; auto. constructor; auto. intros H. apply in_map_iff in H as (y & E & Hy).
+    apply filter_In in Hy as (Hy & _). rewrite <- E in *. now apply (in_map fst) in Hy.
+  Qed.
+  Lemma positive_values b (P : list entry) : incl P (ld (xs_of b)) ->
+    map (fun j => (j, value_at b j)) (map fst P) = P.
+  Proof.
+    intros INC. rewrite map_map. rewrite <- (map_id P) at 2. apply map_ext_in.
+    intros [j v] H. cbn. apply INC, xs_value in H as (_ & _ & _ & _ & ->). reflexivity.
+  Qed.
+  Lemma two_phase_good m b A (f : A -> nat -> T -> A * bool) (a : A) g step (ST : is_trigger_step g step)
+      (tl : list nat) :
+    (forall s s1, gloop cops true f (map fst (xs_of b)) a s = Ok (gacc f (xs_of b) a, s1) ->
+                  activate_on cops m (map fst (xs_of b)) s = step_all step tl s1) ->
+    (forall xs a, triggers_of (gtrace f xs a) = []) ->
+    (forall X (l : list X), order_of m l = l) ->
+    NoDup tl -> incl tl (map fst (ld (xs_of b))) ->
+    map (fun j => (j, g (value_at b j))) tl = select m (ld (xs_of b)) ->
+    scalar_block b -> exists s', good_run m b s'.
+  Proof.
+    intros RUN NT M ND INC SEL SB.
+    destruct (@gloop_spec T N A true f (xs_of b) a (init b)) as (s1 & G & P);
+      auto using xs_nodup, xs_agrees, xs_scalar.
+    destruct (@post_two_phase T N g step ST _ _ _ _ tl (value_at b) P (NT _ _) ND) as (s' & R2 & P2).
+    - intros j Hj. apply INC in Hj. now apply ld_fst_incl.
+    - intros j Hj. apply INC in Hj. apply in_map_iff in Hj as ([j' v] & <- & H). cbn.
+      apply xs_value in H as (r & ? & ? & ? & _). eauto.
+    - assert (EV : cs_events s' = gtrace f (xs_of b) a ++ map (fun j => EvTrigger j (g (value_at b j))) tl)
+        by (destruct P2 as (E & _); exact E).
+      exists s'. split.
+      + rewrite run_unfold, (RUN _ _ G). exact R2.
+      + rewrite EV. unfold xs_of in P2. rewrite xs_fst in P2. exact P2.
+      + rewrite EV, triggers_of_app, NT, triggers_of_map. cbn [app]. rewrite SEL. unfold selection. now rewrite xs_ld.
+      + rewrite EV, deactivations_of_app, gtrace_deactivations, deactivations_of_map, app_nil_r, M.
+        unfold xs_of. now rewrite xs_fst.
+      + rewrite EV, evals_of_app, gtrace_evals, evals_of_map, app_nil_r, M. now rewrite xs_ld.
+      + rewrite EV. apply ordered_then_triggers; [apply gtrace_ordered|].
+        intros j Hj. left. rewrite gtrace_evals. now apply INC.
+  Qed.
+
+  Theorem Proportional_good b : scalar_block b -> exists s', good_run AProportional b s'.
+  Proof.
+    set (P := filter positive (ld (xs_of b))).
+    apply two_phase_good with (f := f_prop) (a := ([], zero)) (g := fun d => div d (sum_degrees P))
+      (step := prop_step cops (sum_degrees P)) (tl := map fst P).
+    - apply prop_step_is_step.
+    - intros s s1 G. cbn [activate_on]. unfold prop_activate. rewrite prop_collect_gloop, G.
+      rewrite prop_acc. cbn. apply prop_trigger_step_all.
+    - intros xs a. apply prop_trace_no_trigger.
+    - reflexivity.
+    - apply nodup_filter_fst, ld_fst_nodup, xs_nodup.
+    - intros j H. apply in_map_iff in H as (p & <- & Hp). apply in_map. now apply filter_In in Hp as (? & _).
+    - cbn [select]. fold P. unfold normalise. rewrite map_map.
+      apply map_ext_in. intros [j v] H. cbn. unfold P in H. apply filter_In in H as (H & _).
+      apply xs_value in H as (_ & _ & _ & _ & ->). reflexivity.
+  Qed.
+
+  (* Highest / Lowest for any numeric reading: the trigger calls are the first n pops of the heap *)
+  Lemma heap_good_pops m key n b :
+    (forall l s, activate_on cops m l s = heap_activate cops key n l s) ->
+    (forall X (l : list X), order_of m l = l) ->
+    let P := filter positive (ld (xs_of b)) in
+    let tl := map snd (firstn (Z.to_nat n) (pop_all (length P) (heap_of key P))) in
+    map (fun j => (j, value_at b j)) tl = select m (ld (xs_of b)) ->
+    scalar_block b -> exists s', good_run m b s'.
+  Proof.
+    intros RUN M P tl SEL.
+    assert (HS : map snd (heap_of key P) = map fst P) by (unfold heap_of; now rewrite map_map).
+    assert (NDP : NoDup (map fst P)) by apply nodup_filter_fst, ld_fst_nodup, xs_nodup.
+    assert (PERM : Permutation (map fst P) (map snd (pop_all (length P) (heap_of key P)))).
+    { rewrite <- HS. apply Permutation_map, pop_all_perm. apply map_length. }
+    apply two_phase_good with (f := f_heap key) (a := []) (g := fun d => d) (step := c_trigger) (tl := tl).
+    - apply c_trigger_is_step.
+    - intros s s1 G. rewrite RUN. unfold heap_activate. rewrite heap_collect_gloop, G.
+      rewrite heap_acc. cbn [bind fst snd app]. fold P.
+      rewrite heap_pop_loop_step_all, pop_order_pop_all. unfold heap_of at 1. rewrite map_length, Z.sub_0_r.
+      reflexivity.
+    - intros xs a. apply heap_trace_no_trigger.
+    - exact M.
+    - unfold tl. rewrite <- firstn_map. apply nodup_firstn. eapply Permutation_NoDup; eauto.
+    - intros j H. unfold tl in H. rewrite <- firstn_map in H. apply in_firstn in H.
+      eapply Permutation_in in H; [|apply Permutation_sym; exact PERM].
+      apply in_map_iff in H as (p & <- & Hp). apply in_map. now apply filter_In in Hp as (? & _).
+    - exact SEL.
+  Qed.
+End Theorems.
+
+Section SortedTheorems.
+  Context {T : Type} {N : Num T}.
+  Hypothesis PO : PosOrder N.
+  Notation crule := (crule T).
+  Notation entry := (nat * T)%type.
+
+  Lemma heap_good_sorted m key before n (b : list crule) :
+    (forall l s, activate_on cops m l s = heap_activate cops key n l s) ->
+    (forall X (l : list X), order_of m l = l) ->
+    (forall l, select m l = take n (sort_by before (filter positive l))) ->
+    (forall p q, before p q = key_lt (hk key p) (hk key q)) ->
+    (forall a, ltb zero a = true -> eqb (key a) (key a) = true) ->
+    scalar_block b -> exists s', good_run m b s'.
+  Proof.
+    intros RUN M SEL BK KO. apply heap_good_pops with (key := key) (n := n); auto.
+    set (P := filter positive (ld (xs_of b))).
+    assert (QP : Forall (fun p => positive p = true) P).
+    { apply Forall_forall. intros p Hp. now apply filter_In in Hp as (_ & ?). }
+    assert (NDP : NoDup (map fst P)) by apply nodup_filter_fst, ld_fst_nodup, xs_nodup.
+    rewrite (pop_all_sort_by PO key before BK KO QP NDP).
+    unfold heap_of. rewrite firstn_map, !map_map. cbn [snd fst].
+    rewrite <- map_map with (f := fst) (g := fun j => (j, value_at b j)).
+    rewrite positive_values; [now rewrite SEL|].
+    intros p Hp. apply in_firstn in Hp.
+    eapply Permutation_in in Hp; [|apply Permutation_sym, sort_by_perm].
+    now apply filter_In in Hp as (? & _).
+  Qed.
+
+  Theorem Highest_good n (b : list crule) : scalar_block b -> exists s', good_run (AHighest n) b s'.
+  Proof.
+    apply heap_good_sorted with (key := neg) (before := before_desc) (n := n); auto.
+    - apply (before_desc_key PO).
+    - apply (neg_ord PO).
+  Qed.
+  Theorem Lowest_good n (b : list crule) : scalar_block b -> exists s', good_run (ALowest n) b s'.
+  Proof.
+    apply heap_good_sorted with (key := fun d => d) (before := before_asc) (n := n); auto.
+    - apply (before_asc_key PO).
+    - apply (po_pos_ord PO).
+  Qed.
+End SortedTheorems.
+
+Section Consequences.
+  Context {T : Type} {N : Num T}.
+  Notation crule := (crule T). Notation cstate := (cstate T). Notation event := (event T).
+  Notation entry := (nat * T)%type.
+
+  (* the degree of the first trigger call for position j in a list of calls *)
+  Fixpoint lookup (j : nat) (l : list entry) : option T :=
+    match l with
+    | [] => None
+    | (i, d) :: l' => if Nat.eqb i j then Some d else lookup j l'
+    end.
+  Lemma find_trigger_lookup j (evs : list event) : find_trigger j evs = lookup j (triggers_of evs).
+  Proof. induction evs as [|e evs IH]; cbn; auto. destruct e; cbn; auto. now rewrite IH. Qed.
+  Lemma lookup_in j d (l : list entry) : lookup j l = Some d -> In (j, d) l.
+  Proof.
+    induction l as [|[i v] l IH]; cbn; [discriminate|]. destruct (Nat.eqb_spec i j).
+    - intros H; inversion H; subst. now left.
+    - intros H; right; auto.
+  Qed.
+  Lemma lookup_none j (l : list entry) : lookup j l = None <-> ~ In j (map fst l).
+  Proof.
+    induction l as [|[i v] l IH]; cbn; [tauto|]. destruct (Nat.eqb_spec i j).
+    - split; [discriminate|]. intros H; exfalso; apply H; now left.
+    - rewrite IH. tauto.
+  Qed.
+  Lemma lookup_nodup j d (l : list entry) : NoDup (map fst l) -> In (j, d) l -> lookup j l = Some d.
+  Proof.
+    induction l as [|[i v] l IH]; cbn; [tauto|]. intros ND; inversion ND; subst.
+    intros [E|H].
+    - inversion E; subst. now rewrite Nat.eqb_refl.
+    - destruct (Nat.eqb_spec i j); auto. subst. exfalso. apply H1. now apply (in_map fst) in H.
+  Qed.
+
+  (* the positions a method selects are positions of loaded rules *)
+  Lemma select_fst_incl m (l : list entry) : incl (map fst (select m l)) (map fst l).
+  Proof.
+    assert (F : forall p (l : list entry), incl (map fst (filter p l)) (map fst l)).
+    { intros p l0 j H. apply in_map_iff in H as (x & <- & Hx). apply in_map. now apply filter_In in Hx as (? & _). }
+    assert (K : forall n (l : list entry), incl (map fst (take n l)) (map fst l)).
+    { intros n l0 j H. apply in_map_iff in H as (x & <- & Hx). apply in_map. unfold take in Hx. now apply in_firstn in Hx. }
+    assert (S : forall before (l : list entry), incl (map fst (sort_by before l)) (map fst l)).
+    { intros before l0 j H. eapply Permutation_in; [apply Permutation_sym, Permutation_map, sort_by_perm | exact H]. }
+    destruct m; cbn [select].
+    - apply incl_refl.
+    - eapply incl_tran; [apply K | apply F].
+    - eapply incl_tran; [apply K|]. eapply incl_tran; [apply F|]. rewrite map_rev. intros j H. now apply in_rev.
+    - eapply incl_tran; [apply K|]. eapply incl_tran; [apply S | apply F].
+    - eapply incl_tran; [apply K|]. eapply incl_tran; [apply S | apply F].
+    - unfold normalise. rewrite map_map. cbn [fst]. apply F.
+    - apply F.
+  Qed.
+  Lemma loaded_degrees_in (b : list crule) j v : In (j, v) (loaded_degrees b) ->
+    exists r, nth_error b j = Some r /\ rs_loaded (cr_static r) = true /\ rs_value (cr_static r) = v.
+  Proof.
+    rewrite <- xs_ld. intros H. apply xs_value in H as (r & G & L & V & ->). exists r. auto.
+  Qed.
+  Lemma loaded_degrees_nodup (b : list crule) : NoDup (map fst (loaded_degrees b)).
+  Proof. rewrite <- xs_ld. apply ld_fst_nodup, xs_nodup. Qed.
+
+  Section OneRun.
+    Variables (m : activation T) (b : list crule) (s' : cstate).
+    Hypothesis GR : good_run m b s'.
+
+    Theorem run_selects : trigger_calls (run m b) = selection m b.
+    Proof. rewrite (gr_run GR). cbn. apply (gr_triggers GR). Qed.
+
+    Theorem run_length : length (cs_rules s') = length b.
+    Proof. destruct (gr_post GR) as (_ & L & _). exact L. Qed.
+
+    (* every rule afterwards, as a function of the documented selection *)
+    Theorem run_final_rule j r : nth_error b j = Some r ->
+      nth_error (cs_rules s') j = Some (outcome r (lookup j (selection m b))).
+    Proof.
+      intros G. destruct (gr_post GR) as (_ & _ & _ & C & _).
+      rewrite <- (gr_triggers GR), <- find_trigger_lookup. apply C; auto.
+      apply in_seq. split; [lia|]. cbn. apply nth_error_Some. congruence.
+    Qed.
+
+    Theorem run_triggered_flag_iff j r' : nth_error (cs_rules s') j = Some r' ->
+      (cr_triggered r' = true <->
+       (exists d, In (j, d) (selection m b)) /\ rs_enabled (cr_static r') = true /\ gtb (cr_degree r') zero = true).
+    Proof.
+      intros G'. assert (Hj : j < length b) by (rewrite <- run_length; apply nth_error_Some; congruence).
+      destruct (nth_error b j) as [r|] eqn:G; [|apply nth_error_None in G; lia].
+      rewrite (run_final_rule _ G) in G'. inversion G'; subst r'. clear G'.
+      unfold outcome. cbn [cr_triggered cr_static cr_degree mk].
+      destruct (lookup j (selection m b)) as [d|] eqn:LK.
+      - rewrite andb_true_iff. split.
+        + intros [? ?]. split; [|tauto]. exists d. now apply lookup_in.
+        + tauto.
+      - split; [discriminate|]. intros ((d & H) & _). apply lookup_none in LK. elim LK. now apply (in_map fst) in H.
+    Qed.
+
+    (* a rule outside the selection gets no trigger call and keeps only its evaluated degree *)
+    Theorem run_unselected_untouched j r : nth_error b j = Some r ->
+      (forall d, ~ In (j, d) (selection m b)) ->
+      (forall d, ~ In (j, d) (triggers_of (cs_events s'))) /\
+      nth_error (cs_rules s') j =
+        Some (mk (cr_static r) (if rs_loaded (cr_static r) then rs_value (cr_static r) else zero) false).
+    Proof.
+      intros G NS. split; [now rewrite (gr_triggers GR)|].
+      rewrite (run_final_rule _ G). destruct (lookup j (selection m b)) as [d|] eqn:LK; auto.
+      apply lookup_in in LK. elim (NS _ LK).
+    Qed.
+
+    (* an unloaded rule is deactivated and nothing else *)
+    Theorem run_unloaded_untouched j r : nth_error b j = Some r -> rs_loaded (cr_static r) = false ->
+      In j (deactivations_of (cs_events s')) /\ ~ In j (evals_of (cs_events s')) /\
+      (forall d, ~ In (j, d) (triggers_of (cs_events s'))) /\
+      nth_error (cs_rules s') j = Some (mk (cr_static r) zero false).
+    Proof.
+      intros G L.
+      assert (NL : ~ In j (map fst (loaded_degrees b))).
+      { intros H. apply in_map_iff in H as ([j' v] & <- & H). apply loaded_degrees_in in H as (r' & G' & L' & _).
+        cbn in *. rewrite G in G'. inversion G'; subst. congruence. }
+      assert (NS : forall d, ~ In (j, d) (selection m b)).
+      { intros d H. apply NL. apply (select_fst_incl m). now apply (in_map fst) in H. }
+      repeat split.
+      - rewrite (gr_deactivations GR).
+        assert (In j (seq 0 (length b))) by (apply in_seq; split; [lia|]; cbn; apply nth_error_Some; congruence).
+        destruct m; cbn; auto. now apply -> in_rev.
+      - rewrite (gr_evals GR). intros H. apply NL. destruct m; cbn in H; auto.
+        rewrite map_rev in H. now apply in_rev in H.
+      - apply (run_unselected_untouched _ G NS).
+      - destruct (run_unselected_untouched _ G NS) as (_ & F). now rewrite L in F.
+    Qed.
+
+    (* every rule is deactivated exactly once, every loaded rule is evaluated exactly once, in iteration order *)
+    Theorem run_deactivates_all : Permutation (deactivations_of (cs_events s')) (seq 0 (length b)).
+    Proof. rewrite (gr_deactivations GR). destruct m; cbn; auto. apply Permutation_sym, Permutation_rev. Qed.
+    Theorem run_evaluates_loaded : Permutation (evals_of (cs_events s')) (map fst (loaded_degrees b)).
+    Proof.
+      rewrite (gr_evals GR). destruct m; cbn; auto. apply Permutation_map, Permutation_sym, Permutation_rev.
+    Qed.
+  End OneRun.
+
+  (* Proportional stores degree / sum in every selected rule *)
+  Theorem proportional_degrees (b : list crule) s' j v r' :
+    good_run AProportional b s' ->
+    In (j, v) (filter positive (loaded_degrees b)) -> nth_error (cs_rules s') j = Some r' ->
+    cr_degree r' = div v (sum_degrees (filter positive (loaded_degrees b))).
+  Proof.
+    intros GR IN G'.
+    assert (IN' := IN). apply filter_In in IN' as (IN' & _). apply loaded_degrees_in in IN' as (r & G & _).
+    rewrite (run_final_rule GR _ G) in G'. inversion G'; subst r'. clear G'.
+    unfold selection. cbn [select].
+    set (P := filter positive (loaded_degrees b)) in *.
+    assert (LK : lookup j (normalise P) = Some (div v (sum_degrees P))).
+    { apply lookup_nodup.
+      - unfold normalise. rewrite map_map. cbn [fst]. apply nodup_filter_fst, loaded_degrees_nodup.
+      - unfold normalise. apply in_map_iff. exists (j, v). auto. }
+    rewrite LK. reflexivity.
+  Qed.
+
+  (* ---- batches *)
+  Theorem rejects_vectors m (b : list crule) : vector_block b -> m <> AGeneral -> run m b = Err EValue.
+  Proof.
+    intros VB NG. rewrite run_unfold.
+    pose proof (xs_vector VB) as HV. pose proof (xs_nodup b) as ND. pose proof (xs_agrees b) as AG.
+    destruct m; cbn [activate_on]; try congruence.
+    - rewrite first_loop_gloop, gloop_rejects; auto.
+    - rewrite <- map_rev, first_loop_gloop, gloop_rejects; auto using nodup_rev, agrees_rev, vector_rev.
+    - unfold heap_activate. rewrite heap_collect_gloop, gloop_rejects; auto.
+    - unfold heap_activate. rewrite heap_collect_gloop, gloop_rejects; auto.
+    - unfold prop_activate. rewrite prop_collect_gloop, gloop_rejects; auto.
+    - rewrite threshold_loop_gloop, gloop_rejects; auto.
+  Qed.
+  (* General never looks at the size *)
+  Theorem general_accepts_vectors (b : list crule) : exists s', run AGeneral b = Ok s'.
+  Proof.
+    rewrite run_unfold. cbn [activate_on]. rewrite general_loop_gloop.
+    destruct (@gloop_spec T N unit false f_general (xs_of b) tt (init b)) as (s' & G & _);
+      auto using xs_nodup, xs_agrees; [discriminate|].
+    exists s'. now rewrite G.
+  Qed.
+End Consequences.
+(* ------------------------------------------------------------------------------------------ *)
+(* 8. the reals                                                                                *)
+(* ------------------------------------------------------------------------------------------ *)
+Section Reals.
+  Local Open Scope R_scope.
+  Lemma NumR_PosOrder : PosOrder NumR.
+  Proof.
+    constructor; intros; unR;
+      repeat match goal with
+      | H : context [Rltb ?a ?b] |- _ => destruct (Rltb_spec a b)
+      | H : context [Rleb ?a ?b] |- _ => destruct (Rleb_spec a b)
+      | H : context [Reqb ?a ?b] |- _ => destruct (Reqb_spec a b)
+      end; splitR; try reflexivity; try discriminate; try (exfalso; lra); try (subst; exfalso; lra).
+  Qed.
+
+  Notation entryR := (nat * R)%type.
+  Definition total_degree (l : list entryR) : R := fold_right Rplus 0 (map snd l).
+
+  Lemma fold_left_Rplus (l : list R) a : fold_left Rplus l a = a + fold_right Rplus 0 l.
+  Proof. revert a; induction l as [|x l IH]; intros a; cbn; [lra|]. rewrite IH. lra. Qed.
+  Lemma positive_R (p : entryR) : positive p = true -> 0 < snd p.
+  Proof. unfold positive. unR. destruct (Rltb_spec 0 (snd p)); [auto|discriminate]. Qed.
+  Lemma total_positive (l : list entryR) : l <> [] -> Forall (fun p => positive p = true) l -> 0 < total_degree l.
+  Proof.
+    unfold total_degree. intros NE F. destruct l as [|p l]; [congruence|]. clear NE.
+    inversion F as [|? ? Hp F']; subst. apply positive_R in Hp. cbn.
+    assert (0 <= fold_right Rplus 0 (map snd l)); [|lra].
+    clear - F'. induction F' as [|q l Hq _ IH]; cbn; [lra|]. apply positive_R in Hq. lra.
+  Qed.
+  Lemma total_scaled (l : list entryR) s : total_degree (map (fun p => (fst p, snd p / s)) l) = total_degree l / s.
+  Proof. unfold total_degree. induction l as [|p l IH]; cbn in *; [lra|]. rewrite IH. lra. Qed.
+
+  (* Proportional: the degrees handed to the consequents add up to one *)
+  Theorem proportional_sums_to_one (b : list (crule R)) :
+    filter positive (loaded_degrees b) <> [] ->
+    total_degree (selection AProportional b) = 1.
+  Proof.
+    intros NE. unfold selection. cbn [select]. set (P := filter positive (loaded_degrees b)) in *.
+    assert (POS : 0 < total_degree P).
+    { apply total_positive; auto. apply Forall_forall. intros p Hp. now apply filter_In in Hp as (_ & ?). }
+    unfold normalise. change (@div R NumR) with Rdiv. rewrite total_scaled.
+    unfold sum_degrees. change (@add R NumR) with Rplus. rewrite fold_left_Rplus.
+    change (@zero R NumR) with (Rlit 0 0). unfold Rlit. cbn [Z.leb Z.compare Z.mul Z.pow].
+    fold (total_degree P). field. lra.
+  Qed.
+End Reals.
